@@ -142,8 +142,7 @@ def rule_r2(ctx):
             ctx.r.violation(rid, "readonly-close", "ReadOnlyFileBasedBuffer.close does not close the wrapped file", "src/waitress/buffers.py")
 
 
-def rule_r3(ctx):
-    rid = "C09.R3"
+def rule_r3(ctx, rid="C09.R3"):
     ctx.r.rule(rid, "workers survive: the service() call in the worker loop is inside a catch-all (BaseException) that neither re-raises nor leaves the loop")
     p = ctx.p
     f = p.func("task.ThreadedTaskDispatcher.handler_thread")
@@ -365,7 +364,14 @@ def rule_r10(ctx, rid="C09.R10"):
     ctx.r.floor(rid, n, 1, "buffer close calls in handle_close")
 
 
-RULES = [rule_r1, rule_r2, rule_r3, rule_r4, rule_r5, rule_r6, rule_r7, rule_r8, rule_r9, rule_r10]
+def rule_r11(ctx):
+    """Shared with C11.R1: 'one complete 500 response and the connection is then closed' - the close decision after the
+    error response is atomic with respect to received(), so a pipelined request is not served after the 500."""
+    from . import c11
+    c11.rule_r1(ctx, rid="C09.R11")
+
+
+RULES = [rule_r1, rule_r2, rule_r3, rule_r4, rule_r5, rule_r6, rule_r7, rule_r8, rule_r9, rule_r10, rule_r11]
 
 from ..selftest import M, T, V  # noqa: E402
 
